@@ -33,6 +33,9 @@ META = dict(
         "algorithmic; decoding equality with the HF / tiktoken libraries"
     ),
 )
+META["explanation"] += (
+    " Added after the independent seeding rounds 2-3: " 'R2 also requires clear_excessive_bits to depend on the end of the storage. R6 also requires the builder to search the whole sibling list. R7 token_len mirrors decode_raw for special tokens (relational: a divide-by-B digit loop must run while value >= B).'
+)
 
 GPT2_RANGES = {("ge", 0x21), ("le", 0x7E), ("ge", 0xA1), ("le", 0xAC), ("ge", 0xAE), ("le", 0xFF)}
 
